@@ -768,7 +768,12 @@ def fam_c19(R, n_random):
 def fam_c04():
     out = []
     bad_str = ['(?-u)\\xFF', '(?-u:[\\x80-\\xBF])+', 'a(?-u:\\xC3)', '(?s-u:.)', '(?-u:[^a])']
-    bad_bytes = [b'\\xC3', b'[\\x80-\\xFF]', b'a\\xE2\\x82', b'\\xF0\\x9F+']
+    bad_bytes = [b'\\xC3', b'[\\x80-\\xFF]', b'a\\xE2\\x82', b'\\xF0\\x9F+',
+                 # byte-level spellings that look like encodings and are not: a lead-byte range straddling sequence lengths, overlong
+                 # forms, surrogates, beyond U+10FFFF, a range running from ASCII into lead bytes
+                 b'[\\xC2-\\xEF][\\x80-\\xBF]', b'[\\x00-\\xDF]', b'\\xE0[\\x80-\\xBF][\\x80-\\xBF]', b'\\xED[\\x80-\\xBF][\\x80-\\xBF]',
+                 b'\\xF4[\\x80-\\xBF][\\x80-\\xBF][\\x80-\\xBF]', b'[\\xC0-\\xC1][\\x80-\\xBF]', b'\\xF0[\\x80-\\xBF][\\x80-\\xBF][\\x80-\\xBF]',
+                 b'[\\xE1-\\xF3][\\x80-\\xBF][\\x80-\\xBF]', b'[\\xC2-\\xDF][\\x80-\\xC0]']
     ok_bytes = [b'\\xC3\\xA9', b'(\\xE2\\x82\\xAC)+', b'[a-z]+']
     other = '#[regex("[0-9][0-9]+")] W,'      # (two digits at least: no tie with the patterns below in byte mode)
     for p in bad_str:
